@@ -233,7 +233,8 @@ def check_stat_dtype(case, dtype):
         for out in (None, 'samples'):
             try:
                 # caller-owned buffers refilled in place from call to call (one pair per shape / dtype)
-                lab_in, val_in = _refill(lab, 'lab'), _refill(vals, 'val')
+                val_in = _refill(vals, 'val')
+                lab_in = _refill.primed(lab, 'lab', lambda b_: get_cycle_stat(b_, val_in, out=out, func=f))
                 got = get_cycle_stat(lab_in, val_in, out=out, func=f)
             except Exception as e:
                 viols.append(('stat:raise:%s' % type(e).__name__, 'labels=%s func=%s out=%r raised %r' % (list(v), name, out, e)))
